@@ -170,9 +170,12 @@ SimCase(h, p) == LET s == SentFor(h, p)
 LimCase(ls, p) == [mode |-> "limits", hs |-> <<>>, plan |-> p, lims |-> ls, msgs |-> <<>>, sent |-> <<>>, ret |-> <<>>,
                    raised |-> \E i \in DOMAIN p : p[i].cmd = "set" /\
                                  \E j \in DOMAIN ls : ls[j].dev = p[i].obj /\ ls[j].has /\ (p[i].val < ls[j].lo \/ p[i].val > ls[j].hi)]
+\* (sequences of input pairs mapped to case records: no set of large records has to be normalized)
+SimInputs == SetToSeq(UNION {{<<h, p>> : p \in SimPlansFor(h)} : h \in Heads})
+LimInputs == IF LimPlan >= 0 THEN SetToSeq(LimSets \X LimPlans) ELSE <<>>
 DumpCases ==
     TLCGet("stats").generated >= 0 /\
     ndJsonSerialize(IOEnv.CASES_OUT,
-        SetToSeq(UNION {{SimCase(h, p) : p \in SimPlansFor(h)} : h \in Heads})
-        \o (IF LimPlan >= 0 THEN SetToSeq({LimCase(c[1], c[2]) : c \in LimSets \X LimPlans}) ELSE <<>>))
+        [i \in 1..Len(SimInputs) |-> SimCase(SimInputs[i][1], SimInputs[i][2])]
+        \o [i \in 1..Len(LimInputs) |-> LimCase(LimInputs[i][1], LimInputs[i][2])])
 =============================================================================
